@@ -127,7 +127,7 @@ pub fn check(c: &Case) -> Verdict {
         classes.push("offset>4GiB".into());
     }
     let sample = serde_json::json!({"coin": built.coin.cli(), "blocks": n, "key": vpmodel::hashes::hex(&key), "files": c.layout.files_used(n), "backward_seeks": back, "block_offsets": xor_plan.recs.iter().take(6).map(|r| r.data_pos).collect::<Vec<_>>(), "second_callback": c.second.cli()});
-    Verdict::Pass(Pass { nontrivial: unaligned && back >= 1, key: vpmodel::hashes::fnv64(format!("{}|{}", key.len(), key_of(&c.layout)).as_bytes()), classes, known: vec![], sub_evals: runs, sample: Some(sample) })
+    Verdict::Pass(Pass { nontrivial: unaligned && back >= 1, key: vpmodel::hashes::fnv64(format!("{}|{}", key.len(), key_of(&c.layout)).as_bytes()), classes, known: vec![], sub_evals: runs, sample: Some(sample), extra_keys: vec![] })
 }
 
 fn run(eng: &Engine, a: &Args) {
